@@ -215,28 +215,21 @@ func (r *Runner) RunStart(s *CfgScript, tw *TraceWriter) error {
 			c.Env["RDPGW_SERVER__TLS"] = spell(s.Spell, v)
 		}
 	}
-	p, err := gw.Start(c, gw.StartOpts{Binary: r.BinGW, WorkDir: r.Work, NoWait: true, NoHooks: true})
-	if err != nil {
-		return err
-	}
-	defer p.Stop()
+	var p *gw.Proc
 	outcome := "timeout"
-	deadline := time.Now().Add(20 * time.Second)
-	for time.Now().Before(deadline) {
-		if !p.Alive() {
-			outcome = "refused"
-			break
+	for attempt := 0; attempt < 4; attempt++ {
+		var err error
+		p, err = gw.Start(c, gw.StartOpts{Binary: r.BinGW, WorkDir: r.Work, NoWait: true, NoHooks: true})
+		if err != nil {
+			return err
 		}
-		if cc, err := netDial(p.Addr); err == nil {
-			cc.Close()
-			time.Sleep(15 * time.Millisecond)
-			if !p.Alive() {
-				continue // somebody else listens on that port; this process is gone
-			}
-			outcome = "listening"
-			break
+		defer p.Stop()
+		outcome = r.startOutcome(p)
+		if outcome == "refused" && strings.Contains(p.Stderr(), "address already in use") {
+			// the port was taken by somebody else between probing and binding: says nothing about the configuration
+			continue
 		}
-		time.Sleep(3 * time.Millisecond)
+		break
 	}
 	exit := 0
 	if outcome == "refused" {
@@ -255,6 +248,31 @@ func (r *Runner) RunStart(s *CfgScript, tw *TraceWriter) error {
 	tw.Line(M{"ev": "start", "script": s.ID, "cls": s.Src + "." + s.Spell, "src": s.Src, "cfg": M{"auth": s.Auth, "tlsDisabled": s.TlsOff, "tokenAuth": s.Token, "sel": s.Sel, "queryKey": s.QKey, "keytab": s.Keytab, "nhosts": s.NHosts, "spell": s.Spell},
 		"outcome": outcome, "exit": exit, "lastlog": trunc(last, 160), "eff": eff, "probed": probed})
 	return nil
+}
+
+// startOutcome waits until the started gateway has either exited ("refused") or holds a listening socket on its port
+// ("listening").
+func (r *Runner) startOutcome(p *gw.Proc) string {
+	outcome := "timeout"
+	deadline := time.Now().Add(20 * time.Second)
+	for time.Now().Before(deadline) {
+		if !p.Alive() {
+			outcome = "refused"
+			break
+		}
+		if cc, err := netDial(p.Addr); err == nil {
+			cc.Close()
+			if p.Cmd == nil || p.Cmd.Process == nil || !gw.ListensOn(p.Cmd.Process.Pid, p.Port) {
+				// somebody else listens on that port (another test process on this machine): not this gateway's doing
+				time.Sleep(3 * time.Millisecond)
+				continue
+			}
+			outcome = "listening"
+			break
+		}
+		time.Sleep(3 * time.Millisecond)
+	}
+	return outcome
 }
 
 // probeEffective finds out from outside what a running gateway actually does: whether it speaks TLS, which
